@@ -18,7 +18,7 @@ import z3
 from . import REPO
 from .ctx import Ctx, Obligation, PyRaise
 from .interp import AnchorNotFound, Interp
-from .values import Unsupported
+from .values import ScheduleDependence, Unsupported
 
 VERIF = os.path.dirname(os.path.dirname(os.path.abspath(__file__)))
 NATIVE_PY = "/venv/bin/python"
@@ -300,6 +300,10 @@ def _run_unit(args):
         out["assumptions"] = ur.assumptions
         out["map_loops"], out["prange_loops"] = ur.map_loops, ur.prange_loops
         out["opaque_calls"] = sorted(ur.opaque_calls)
+    except ScheduleDependence as e:
+        # not a limit of the engine: the kernel itself breaks the independence of nb.prange iterations
+        out["results"].append({"name": f"{unit_name}/prange.iterations_independent[scalar carried across iterations]", "kind": "prove", "status": "refuted",
+                               "solver": "pdv (syntactic data-flow of the loop body)", "time_s": 0.0, "model": str(e), "info": {"kind": "schedule"}})
     except Unsupported as e:
         out["error"] = {"kind": "unsupported", "msg": str(e)}
     except AnchorNotFound as e:
@@ -324,12 +328,13 @@ def run_units(modname, unit_names, tier, jobs=None):
 
 
 # ------------------------------------------------------------------------------- native replay
-def native(script, payload, timeout=600):
+def native(script, payload, timeout=600, disable_jit=None):
     """run a native driver under the repository's python; returns parsed JSON of its last line"""
+    jit_off = os.environ.get("PDV_NUMBA_DISABLE_JIT", "0") if disable_jit is None else ("1" if disable_jit else "0")
     p = subprocess.run(
         [NATIVE_PY, os.path.join(VERIF, "pdv", "native", script)],
         input=json.dumps(payload), capture_output=True, text=True, timeout=timeout, cwd=REPO,
-        env={**os.environ, "PYTHONPATH": REPO, "NUMBA_DISABLE_JIT": os.environ.get("PDV_NUMBA_DISABLE_JIT", "0")},
+        env={**os.environ, "PYTHONPATH": REPO, "NUMBA_DISABLE_JIT": jit_off},
     )
     lines = [l for l in p.stdout.strip().splitlines() if l.startswith("{")]
     if not lines:
